@@ -36,6 +36,15 @@ pub(super) fn execute_create_from_rows<S: GraphSnapshot>(
                 row_node_ids.insert(*idx, existing_iid);
                 continue;
             }
+            // A variable that OPTIONAL MATCH bound to null names no node: creating a fresh node
+            // in its place would attach the pattern to something the query never asked for.
+            if let Some(var) = &node_pat.variable
+                && matches!(row.get(var), Some(Value::Null))
+            {
+                return Err(Error::Other(format!(
+                    "runtime error: CREATE cannot use `{var}`, which is null"
+                )));
+            }
 
             let external_id = ExternalId::from(
                 created_count as u64 + chrono::Utc::now().timestamp_nanos_opt().unwrap_or(0) as u64,
